@@ -17,8 +17,8 @@ inductive Ev (A Q : Type) where
   | asked : Q → Bool → Ev A Q
   deriving DecidableEq, Repr, Hashable
 
-inductive Leaf where
-  | next (s : Nat)
+inductive Leaf (S : Type) where
+  | next (s : S)
   | halt
   deriving DecidableEq, Repr, Hashable
 
@@ -26,13 +26,13 @@ inductive Tree (A Q L : Type) where
   | emit : A → Tree A Q L → Tree A Q L
   | ask : Q → Tree A Q L → Tree A Q L → Tree A Q L
   | leaf : L → Tree A Q L
-  deriving Repr
+  deriving Repr, DecidableEq
 
 abbrev Oracle (A Q : Type) := List (Ev A Q) → Q → Bool
 
-variable {A Q L : Type}
+variable {A Q L S : Type}
 
-def Leaf.cfg : Leaf → Option Nat
+def Leaf.cfg : Leaf S → Option S
   | .next s => some s
   | .halt => none
 
@@ -70,19 +70,19 @@ def Tree.bind {L' : Type} : Tree A Q L → (L → Tree A Q L') → Tree A Q L'
   | .leaf l, f => f l
 
 /-- A symbolic machine: a start state and one tree per (state, symbol). -/
-structure SM (A Q : Type) where
-  start : Nat
-  step : Nat → Nat → Tree A Q Leaf
+structure SM (S A Q : Type) where
+  start : S
+  step : S → Nat → Tree A Q (Leaf S)
 
 /-- The tree of a configuration (`none` = halted) on a symbol. -/
-def SM.tree (M : SM A Q) : Option Nat → Nat → Tree A Q Leaf
+def SM.tree (M : SM S A Q) : Option S → Nat → Tree A Q (Leaf S)
   | none, _ => .leaf .halt
   | some s, x => M.step s x
 
 /-- Run from history `h` and configuration `c` over the word `w`: new events and final
     configuration. -/
-def SM.runFrom (M : SM A Q) (ω : Oracle A Q) :
-    List (Ev A Q) → Option Nat → List Nat → List (Ev A Q) × Option Nat
+def SM.runFrom (M : SM S A Q) (ω : Oracle A Q) :
+    List (Ev A Q) → Option S → List Nat → List (Ev A Q) × Option S
   | _, c, [] => ([], c)
   | h, c, x :: w =>
       let r := (M.tree c x).run ω h
@@ -90,10 +90,10 @@ def SM.runFrom (M : SM A Q) (ω : Oracle A Q) :
       (r.1 ++ r'.1, r'.2)
 
 /-- All events performed on input `w` from the start state. -/
-def SM.events (M : SM A Q) (ω : Oracle A Q) (w : List Nat) : List (Ev A Q) :=
+def SM.events (M : SM S A Q) (ω : Oracle A Q) (w : List Nat) : List (Ev A Q) :=
   (M.runFrom ω [] (some M.start) w).1
 
-def SM.finalCfg (M : SM A Q) (ω : Oracle A Q) (w : List Nat) : Option Nat :=
+def SM.finalCfg (M : SM S A Q) (ω : Oracle A Q) (w : List Nat) : Option S :=
   (M.runFrom ω [] (some M.start) w).2
 
 end Nmfu
